@@ -131,7 +131,9 @@ impl<D: Debug + Clone> Proto for Handshake<D> {
             v.push(Msg { label: "Propose".into(), data: Some(vec![vt_render(&t)]), m: Propose(t.clone()) });
             v.push(Msg { label: "QueryReply".into(), data: Some(vec![vt_render(&t)]), m: QueryReply(t) });
         }
-        for (ver, x) in [(self.v1, self.d1.clone()), (self.v2, self.d2.clone())] {
+        // the third one accepts a proposed version with parameters that differ from the proposed ones
+        // (a responder negotiating down): the state must carry the RECEIVED data
+        for (ver, x) in [(self.v1, self.d1.clone()), (self.v2, self.d2.clone()), (self.v1, self.d2.clone())] {
             v.push(Msg { label: "Accept".into(), data: Some(vec![d(&ver), d(&x)]), m: Accept(ver, x) });
         }
         for r in [
